@@ -75,8 +75,15 @@ def _initialize_cylces(topology, cycles, tolerance):
             if len(cycles) > 1:
                 raise IOError("More than one cycle is not allowed.")
             molecule.dfs=True
-            nodes = (list(molecule.search_tree.edges)[0][0],
-                     list(molecule.search_tree.edges)[-1][1])
+            tree = molecule.search_tree
+            # the ring is closed by the edge the search tree leaves out;
+            # other residues (e.g. an annotated ligand) can come after
+            # the residue that closes the ring in the search tree
+            order = list(tree.nodes)
+            closing = [tuple(sorted(edge, key=order.index)) for edge in molecule.edges
+                       if not tree.has_edge(*edge) and not tree.has_edge(*edge[::-1])]
+            ends = (list(tree.edges)[0][0], list(tree.edges)[-1][1])
+            nodes = closing[0] if closing else ends
             topology.distance_restraints[(mol_name, mol_idx)][nodes] = (0.0, tolerance)
 
 def _check_molecules(molecules):
